@@ -17,7 +17,7 @@ import vlib, btree
 LEVEL = "model_checking"
 MANIFEST = dict(cat=LEVEL, ref="DESIGN.md 3.8, 6 (C29)",
     tech="TLA+ predicate BTreeShape!WellFormed (nine named clauses: page kinds / pointers, slot area, cells inside, cells disjoint, keys increasing, separators bound subtrees, uniform leaf depth, leaf chain = in-order leaves, no page shared) shown falsifiable clause by clause by TLC on seeded broken trees, and evaluated by TLC (Trace_BTreeShape, ndJsonDeserialize of the harness dump) on abstract trees projected from the real pages after the steps of TLC-generated behaviours of BTreeMap.tla",
-    text="after every step of the C28 behaviours (every transition to depth 2/3 over a 6-key universe from seven preloaded trees, unsplittable cells, random walks of 240/120 steps with leaf and interior splits, emptied leaves, three hint modes) the projected tree is well formed: TLC decides it on a stratified subset of the steps (every step of one hint mode per walk, every 12th/5th step of the others, the last step of 1 in 12 / 1 in 2 enumerated cases) and on every tree the Rust mirror of the predicate rejects; the mirror covers all steps and agrees with TLC on all dumped trees",
+    text="after every step of the C28 behaviours (every transition to depth 2/3 over a 6-key universe from seven preloaded trees, unsplittable cells, random walks of 240/120 steps with leaf and interior splits, emptied leaves, three hint modes) the projected tree is well formed: TLC decides it on a stratified subset of the steps (every step of two (quick) / all (thorough) walks per universe in one hint mode, every 24th/5th step of the others, the last step of 1 in 40 / 1 in 2 enumerated cases; identical trees are evaluated once) and on every tree the Rust mirror of the predicate rejects; the mirror covers all steps and agrees with TLC on all dumped trees",
     note="the projection (about 150 lines of Rust over the public node accessors) is trusted; only pages reachable from the root by child or next_leaf pointers are judged; dead cell space left by deletes is not a violation (cells of live slots must be inside the cell area and disjoint)")
 
 CLAUSES = ["KindsOk", "SlotAreaOk", "CellsInside", "CellsDisjoint", "KeysIncreasing", "SeparatorsBound", "UniformDepth", "LeafChain", "NoSharing"]
@@ -60,7 +60,9 @@ def shape_signature(case, r, s):
     o = s["op"]["o"]
     obs = prim["obs"] if prim else None
     if prim and prim["class"] == "fallback_failed":
-        obs, o = obs[1], "ins"
+        obs = obs[1]
+    if s.get("fallback") and o == "upd":
+        o = "ins"              # the failing call is the insert of the caller's delete+insert fallback
     err = btree.errnorm(obs)
     clauses = ",".join(sorted(s["failed"]))
     if s.get("fastpath") and s.get("fastpath_leaf_empty") and o in ("ins", "app") and case["hint"] != "none":
@@ -82,6 +84,7 @@ def run(chk):
     P = btree.pipeline(chk, want_shape_tlc=True)
     nv = btree.nonvacuity(P)
     res, cases, ver = P["results"], P["cases"], P["verdicts"]
+    distinct_trees = ver.pop("#distinct", len(ver))
     # cross-check mirror vs TLC on every dumped tree
     mism = [(t["id"], sorted(t["mirror"]), ver.get(t["id"])) for t in P["trees"] if sorted(t["mirror"]) != ver.get(t["id"])]
     if mism:
@@ -113,7 +116,7 @@ def run(chk):
     chk.cov = {
         "states": mcstats.get("distinct", 0) + len(ver), "transitions": mcstats.get("generated", 0) + len(ver),
         "traces_validated_against_impl": len(ver),
-        "trees_judged_by_tlc": len(ver), "trees_well_formed_by_tlc": ok_by_tlc, "trees_ill_formed_by_tlc": len(ver) - ok_by_tlc,
+        "trees_judged_by_tlc": len(ver), "distinct_trees_evaluated_by_tlc": distinct_trees, "trees_well_formed_by_tlc": ok_by_tlc, "trees_ill_formed_by_tlc": len(ver) - ok_by_tlc,
         "steps_judged_by_rust_mirror": steps_mirror, "mirror_vs_tlc_disagreements": 0,
         "behaviours": len(cases), "behaviours_with_ill_formed_tree": bad_cases, "signatures": dict(per_sig),
         "seeded_broken_trees": {"clauses": CLAUSES, "each_fails_exactly_its_clause": True, "named_invariant_runs": named},
@@ -146,6 +149,7 @@ def replay(chk, path):
     uni = btree.gen_bfs(cfgs[fc["grp"]], 0, workers=1)[0] if fc["grp"] in ("u6", "ubig") else btree.gen_walks(cfgs[fc["grp"]], 1, 1)[0]
     res, trees = btree.replay([{"id": 0, "steps": fc["steps"], "hint": fc["hint"], "store": fc.get("store", "mmap"), "dump": "last", "grp": fc["grp"]}], uni, "replay", procs=1, jobs=1)
     ver = btree.tlc_shape(trees, procs=1)
+    ver.pop("#distinct", None)
     bad = {k: x for k, x in ver.items() if x}
     print("re-executed: TLC verdicts of the ill-formed trees:", bad)
     vlib.cleanup()
